@@ -1,6 +1,7 @@
 import MuduoVerif.Proofs.ConnFlow
 import MuduoVerif.Proofs.ConnRead
 import MuduoVerif.Proofs.ConnBlocks
+import MuduoVerif.Proofs.ConnProgress
 /-!
 # C01 — TCP payload is delivered complete, in order and exactly once, both directions
 
@@ -21,7 +22,7 @@ thread / on other threads, in call order), `wrote` (bytes the kernel took, in or
 `peerAll`/`peerPending`/`delivered`/`inBuf` for the receive direction.
 
 What this does not say: that the kernel delivers `wrote` to the peer (assumed: TCP), and
-progress (the backlog drains) — see `drain_step` for the step-wise statement.
+progress without the fairness hypothesis of `drain_progress`.
 -/
 namespace MuduoVerif.C01
 open MuduoVerif.Conn MuduoVerif.Gen.Conn
@@ -89,6 +90,14 @@ kernel takes `n+1` leaves `k - (n+1)` bytes, and these are the tail of the old b
 theorem drain_step (c : Conn) (n : Nat) (hw : c.ch.evWrite = true) (hr : peekWrite c = .took (n+1)) :
     (handleWrite c).outBuf = c.outBuf.drop (n+1) := by
   rw [handleWrite_outBuf, if_pos hw, hr]
+
+/-- **drain_progress**: under the fairness hypothesis `EnvFairWrites` (every iteration reports
+writability and the kernel takes at least one byte: `Draining.fair`) and with nothing else queued
+that sends, closes or destroys, a backlog of at most `k` bytes is written out completely after
+`k` iterations -/
+theorem drain_progress (k : Nat) (c : Conn) (hd : Draining c) (hk : c.outBuf.length ≤ k) :
+    (pollOut c k).outBuf = [] :=
+  (Conn.drain_progress k c hd hk).1
 
 /-- the three overloads of `send` apply the same state test and hand over the same way -/
 theorem send_overloads_agree :
